@@ -30,10 +30,10 @@ theorem Bnd.flipHi_spec (hi above : Bnd α) (x : α) (h : hi.flipHi = some above
   cases hi <;> simp only [Bnd.flipHi, Option.some.injEq, reduceCtorEq] at h <;> subst h <;>
     simp only [Bnd.hiOk, Bnd.loOk] <;> grind
 
-theorem Bnd.flipLo_none (lo : Bnd α) (x : α) (h : lo.flipLo = none) : lo.loOk x = true := by
+theorem Bnd.flipLo_none_u (lo : Bnd α) (x : α) (h : lo.flipLo = none) : lo.loOk x = true := by
   cases lo <;> simp [Bnd.flipLo, Bnd.loOk] at *
 
-theorem Bnd.flipHi_none (hi : Bnd α) (x : α) (h : hi.flipHi = none) : hi.hiOk x = true := by
+theorem Bnd.flipHi_none_u (hi : Bnd α) (x : α) (h : hi.flipHi = none) : hi.hiOk x = true := by
   cases hi <;> simp [Bnd.flipHi, Bnd.hiOk] at *
 
 /-- in a valid segment, a point above the upper bound is above the lower bound -/
@@ -65,7 +65,7 @@ theorem Ivl.lo_of_valid_inter (lo hi : Bnd α) (iv : Ivl α) (x : α)
 theorem Bnd.loOk_maxLo (a b : Bnd α) (x : α) : (Bnd.maxLo a b).loOk x = (a.loOk x && b.loOk x) := by
   cases a <;> cases b <;> simp only [Bnd.maxLo, Bnd.loOk] <;> grind
 
-theorem Bnd.hiOk_minHi (a b : Bnd α) (x : α) : (Bnd.minHi a b).hiOk x = (a.hiOk x && b.hiOk x) := by
+theorem Bnd.hiOk_minHi_u (a b : Bnd α) (x : α) : (Bnd.minHi a b).hiOk x = (a.hiOk x && b.hiOk x) := by
   cases a <;> cases b <;> simp only [Bnd.minHi, Bnd.hiOk] <;> grind
 
 /-! ### the marker `pv ∈ (lo, hi)` -/
@@ -277,7 +277,7 @@ theorem complexifyLo_below (x : α) (hx : lo.loOk x = false) (hne : new ≠ [])
     ∃ e' ∈ complexifyLo lo new, e'.1.mem x = true ∧ e'.2 = .leaf false := by
   unfold complexifyLo
   cases hf : lo.flipLo with
-  | none => rw [Bnd.flipLo_none lo x hf] at hx; exact absurd hx (by simp)
+  | none => rw [Bnd.flipLo_none_u lo x hf] at hx; exact absurd hx (by simp)
   | some below =>
     cases new with
     | nil => exact absurd rfl hne
@@ -480,7 +480,7 @@ theorem complexifyEdges_find (lo hi : Bnd α) (es : EdgeL νr νb α)
         simp only [Ivl.mem, hlo, Bool.true_and] at hout; exact hout
       unfold complexifyHi
       cases hf : hi.flipHi with
-      | none => rw [Bnd.flipHi_none hi x hf] at hhi; exact absurd hhi (by simp)
+      | none => rw [Bnd.flipHi_none_u hi x hf] at hhi; exact absurd hhi (by simp)
       | some above =>
         exact complexifyHiGo_above hi above hf _ x hhi (complexifyLo_ne_nil lo new hne) hminv
     · have hlo' : lo.loOk x = false := by simpa using hlo
@@ -625,7 +625,7 @@ theorem eval_simplifyEdges (ρ : Env νr νb α) (v : νr) (lo hi : Bnd α) (es 
       · simp only [Option.some.injEq] at hb hb'
         subst hb; subst hb'
         intro x hx
-        simp only [Ivl.inter, Bnd.loOk_maxLo, Bnd.hiOk_minHi, Bool.and_eq_true] at hx ⊢
+        simp only [Ivl.inter, Bnd.loOk_maxLo, Bnd.hiOk_minHi_u, Bool.and_eq_true] at hx ⊢
         rw [haa x hx.1]; rfl
       · simp at hb'
     · simp at hb
@@ -642,19 +642,19 @@ theorem eval_simplifyEdges (ρ : Env νr νb α) (v : νr) (lo hi : Bnd α) (es 
 
 /-! ### the tree level -/
 
-theorem Edges.complexifyPyE_eq (pv : νr) (lo hi : Bnd α) : ∀ (es : Edges νr νb α),
+theorem Edges.complexifyPyE_eq_u (pv : νr) (lo hi : Bnd α) : ∀ (es : Edges νr νb α),
     es.complexifyPyE pv lo hi = es.toList.map (fun e => (e.1, e.2.complexifyPy pv lo hi))
   | .nil => rfl
   | .cons iv t rest => by
-    simp [Edges.complexifyPyE, Edges.toList, Edges.complexifyPyE_eq pv lo hi rest]
+    simp [Edges.complexifyPyE, Edges.toList, Edges.complexifyPyE_eq_u pv lo hi rest]
 
-theorem Edges.simplifyPyE_eq (pv : νr) (lo hi : Bnd α) : ∀ (es : Edges νr νb α),
+theorem Edges.simplifyPyE_eq_u (pv : νr) (lo hi : Bnd α) : ∀ (es : Edges νr νb α),
     es.simplifyPyE pv lo hi = es.toList.map (fun e => (e.1, e.2.simplifyPy pv lo hi))
   | .nil => rfl
   | .cons iv t rest => by
-    simp [Edges.simplifyPyE, Edges.toList, Edges.simplifyPyE_eq pv lo hi rest]
+    simp [Edges.simplifyPyE, Edges.toList, Edges.simplifyPyE_eq_u pv lo hi rest]
 
-theorem Edges.wfAll_mem : ∀ (es : Edges νr νb α) (k : Rank νr νb), es.wfAll k = true →
+theorem Edges.wfAll_mem_u : ∀ (es : Edges νr νb α) (k : Rank νr νb), es.wfAll k = true →
     ∀ e ∈ es.toList, e.2.wf = true
   | .nil, _, _ => by simp [Edges.toList]
   | .cons iv t rest, k, h => by
@@ -663,7 +663,7 @@ theorem Edges.wfAll_mem : ∀ (es : Edges νr νb α) (k : Rank νr νb), es.wfA
     simp only [Edges.toList, List.mem_cons] at he
     rcases he with he | he
     · subst he; exact h.1.1
-    · exact Edges.wfAll_mem rest k h.2 e he
+    · exact Edges.wfAll_mem_u rest k h.2 e he
 
 theorem Ivl.mem_unb_unb (a : α) : (Ivl.mk (.unb : Bnd α) .unb).mem a = true := rfl
 
@@ -705,12 +705,12 @@ theorem eval_complexifyPy_aux (pv : νr) (lo hi : Bnd α) (ρ : Env νr νb α) 
           rw [C02.eval_and ρ _ _ hok (OK_pyNode pv lo hi c2), eval_pyNode]
         · simp only [c3, c4, if_false]
           obtain ⟨hxo, hxc⟩ := Tree.OK_rng hok
-          rw [Edges.complexifyPyE_eq]
+          rw [Edges.complexifyPyE_eq_u]
           show (createNodeR v (mapE (fun c => c.complexifyPy pv lo hi) es.toList)).eval ρ = _
           rw [eval_node_map ρ v _ _ (fun b => b && (Ivl.mk lo hi).mem (ρ.rv pv)) hxo hxc, Tree.eval_rng]
           intro e he
           exact ih e.2 (by have := Tree.size_rng_child v es e he; omega)
-            (Edges.wfAll_mem es _ hall e he)
+            (Edges.wfAll_mem_u es _ hall e he)
       · simp only [c1, c2, not_false_eq_true, if_true, if_false, Ivl.mem_of_not_valid _ _ c2]
         simp [Tree.eval]
     | bool v h l =>
@@ -754,12 +754,12 @@ theorem eval_simplifyPy_aux (pv : νr) (lo hi : Bnd α) (ρ : Env νr νb α)
         rw [eval_simplifyEdges ρ v lo hi _ hpart hin, Tree.eval_rng]
       · simp only [c3, if_false]
         obtain ⟨hxo, hxc⟩ := Tree.OK_rng hok
-        rw [Edges.simplifyPyE_eq]
+        rw [Edges.simplifyPyE_eq_u]
         show (createNodeR v (mapE (fun c => c.simplifyPy pv lo hi) es.toList)).eval ρ = _
         rw [eval_node_map ρ v _ _ (fun b => b) hxo hxc, Tree.eval_rng]
         intro e he
         exact ih e.2 (by have := Tree.size_rng_child v es e he; omega)
-          (Edges.wfAll_mem es _ hall e he)
+          (Edges.wfAll_mem_u es _ hall e he)
     | bool v h l =>
       simp only [Tree.simplifyPy]
       by_cases c1 : lo = .unb ∧ hi = .unb
